@@ -7,6 +7,12 @@ from .nondet import root_local, receiver_fields
 def bool_branches(b, call_bb):
     """for a call returning bool whose result is switched on: (true_target, false_target) or None.
     Follows copies and `Not`."""
+    r = bool_switch(b, call_bb)
+    return None if r is None else (r[1], r[2])
+
+
+def bool_switch(b, call_bb):
+    """as bool_branches, but (switch_bb, true_target, false_target)"""
     t = b.term(call_bb)
     dest = t["dest"]["l"]
     negate = False
@@ -34,7 +40,7 @@ def bool_branches(b, call_bb):
                 tr = u["else"]
                 if f is None:
                     return None
-                return (f, tr) if negate else (tr, f)
+                return (cur, f, tr) if negate else (cur, tr, f)
             return None
         if u["k"] == "goto":
             cur = u["t"]
@@ -43,9 +49,10 @@ def bool_branches(b, call_bb):
     return None
 
 
-def reach(b, start, removed=()):
-    """blocks reachable from start over normal edges, not entering `removed` blocks"""
+def reach(b, start, removed=(), removed_edges=()):
+    """blocks reachable from start over normal edges, not entering `removed` blocks nor taking `removed_edges`"""
     removed = set(removed)
+    removed_edges = set(removed_edges)
     if start in removed:
         return set()
     seen = {start}
@@ -53,6 +60,8 @@ def reach(b, start, removed=()):
     while st:
         x = st.pop()
         for s in b.succs[x]:
+            if (x, s) in removed_edges:
+                continue
             if s not in seen and s not in removed:
                 seen.add(s)
                 st.append(s)
@@ -128,10 +137,53 @@ def region(b, tgt):
     return {x for x in b.reachable if b.dominates(tgt, x)}
 
 
-def loop_iterations_all_call(b, call_bbs):
-    """for each natural loop driven by Iterator::next that contains one of call_bbs: True iff no path from the
-    continuation of next() back to the loop header avoids all call_bbs (error exits leave the loop, so they do not count).
-    Returns list of (header, ok)."""
+def next_arms(b, x):
+    """for a block x ending in `Iterator::next(..)`: (none_target, some_target, switch_bb) of the discriminant switch on its result"""
+    t = b.term(x)
+    dest = t["dest"]["l"]
+    cur = t["t"]
+    for _ in range(6):
+        if cur is None:
+            return None
+        u = b.term(cur)
+        if u["k"] == "switch":
+            rv = b.def_rvalue(u["on"])
+            if rv and rv["k"] == "discr" and rv["p"]["l"] == dest:
+                arms = dict((v, tgt) for v, tgt in u["arms"])
+                none_t = arms.get(0)
+                some_t = arms.get(1, u["else"])
+                if none_t is None:
+                    none_t = u["else"]
+                return none_t, some_t, cur
+            return None
+        if u["k"] == "goto":
+            cur = u["t"]
+            continue
+        return None
+    return None
+
+
+def normal_exit_reachable(b, start, blocks_removed=(), edges_removed=()):
+    """can a normal (non-error) return be reached from `start` without entering error-return blocks?"""
+    okb, errb = ret_kind_blocks(b)
+    r = reach(b, start, removed=set(errb) | set(blocks_removed), removed_edges=edges_removed)
+    for x in r:
+        if x in okb:
+            return True
+        if b.term(x)["k"] == "return" and not (okb or errb):
+            return True
+    # unit functions: `_0` may never be assigned explicitly
+    if not okb:
+        return any(b.term(x)["k"] == "return" for x in r)
+    return False
+
+
+def loop_iterations_all_call(b, call_bbs, detail=None):
+    """for each natural loop driven by Iterator::next that contains one of call_bbs: True iff
+      (a) no path from the Some-continuation of next() back to the loop header avoids all call_bbs (no item is skipped), and
+      (b) the loop is only left normally when the iterator is exhausted: every other exit edge leads to error returns only
+          (an early `break`/`return Ok` would leave later items unprocessed).
+    Error exits leave the loop, so they do not count.  Returns list of (header, ok); reasons are appended to `detail`."""
     res = []
     for header, blocks in b.loops():
         inloop = [p for p in call_bbs if p in blocks]
@@ -146,9 +198,30 @@ def loop_iterations_all_call(b, call_bbs):
             # innermost loop only: skip if next() belongs to a nested loop that does not contain the calls
             r = reach(b, t["t"], removed=set(inloop))
             r &= blocks
+            arms = next_arms(b, x)
+            start = t["t"]
+            if arms is not None:
+                # paths through the None arm leave the loop legitimately
+                r = reach(b, arms[1], removed=set(inloop)) & blocks
             back = [p for p in b.preds[header] if p in r]
             if back:
                 ok = False
+                if detail is not None:
+                    detail.append("an iteration can return to the loop header without the call")
+        # (b) early normal exits — only for the loop's own driver (the next() whose None arm leaves this loop)
+        drivers = [x for x in nexts if next_arms(b, x) is not None and next_arms(b, x)[0] not in blocks]
+        if drivers:
+            none_edges = {(next_arms(b, x)[2], next_arms(b, x)[0]) for x in drivers}
+            for x in blocks:
+                if b.blocks[x]["cleanup"]:
+                    continue
+                for y in b.succs[x]:
+                    if y in blocks or (x, y) in none_edges or b.blocks[y]["cleanup"]:
+                        continue
+                    if normal_exit_reachable(b, y):
+                        ok = False
+                        if detail is not None:
+                            detail.append("the loop can be left at %s before the iterator is exhausted, continuing to a normal return" % b.site(x))
         res.append((header, ok))
     return res
 
